@@ -134,7 +134,11 @@ def run(ck):
     ck.judge(not probs, "C05.2", short(filt), wf, "one record per query id: the highest-confidence one, in query-id order",
              found="; ".join(probs) if probs else T.show(ft)[:200],
              required="groupby(queryId) o sort(queryId asc) o sort(confidence desc), first of each group")
-    groupby_inputs_sorted(ck, "C05.2")
+    # the groupings that decide which records of a query are kept: the row-level ones (label-pair de-duplication has its own
+    # rule, C01.4 / C12.5, and is no concern of this property)
+    n_gb = groupby_inputs_sorted(ck, "C05.2", only_modules={"src.alignment.alignment_results", "src.workflow_coordinator",
+                                                            "src.multi_pass_workflow_coordinator", "src.program"})
+    ck.floor("C05.2 groupby sites of the row-level modules", n_gb, 3)
 
     # ---- C05.3 winner
     fn_exec, call, mapname, worker_lambda, worker = parallel_map_site(ctx)
@@ -243,6 +247,8 @@ def run(ck):
     # ---- C05.4 seeds
     seeds(ck, "C05.4")
     seeds_over_all_references(ck, "C05.9")
+    from .c08 import aliased_lists
+    aliased_lists(ck, "C05.10")      # a filtered (one-per-query) list extended in place holds several records of one query again
 
     # ---- C05.5 best mode sorted by query id
     if "best" in modes:
@@ -302,7 +308,7 @@ def _groupby_exception(ctx, fn):
     return None
 
 
-def groupby_inputs_sorted(ck, rule, only_functions=None):
+def groupby_inputs_sorted(ck, rule, only_functions=None, only_modules=None):
     """Every itertools.groupby in src/ runs over a list that is explicitly sorted by the same key (otherwise one id forms
     several groups and 'one per key' silently becomes 'one per run')."""
     ctx = ck.ctx
@@ -313,6 +319,8 @@ def groupby_inputs_sorted(ck, rule, only_functions=None):
                 or fn.module.name.startswith("src.diagnostic.plot"):
             continue
         if only_functions is not None and short(fn) not in only_functions:
+            continue
+        if only_modules is not None and fn.module.name not in only_modules:
             continue
         if "groupby" not in fn.module.source:
             continue
@@ -356,7 +364,7 @@ def groupby_inputs_sorted(ck, rule, only_functions=None):
                              "itertools.groupby runs over a list sorted by the same key (otherwise one id forms several groups)",
                              found=f"sorted by {T.show(sk) if sk else None}, grouped by {T.show(k) if k else None}",
                              required="identical keys")
-    if only_functions is None:
+    if only_functions is None and only_modules is None:
         ck.floor(f"{rule} groupby sites judged", n_gb, 5)
     return n_gb
 
